@@ -16,13 +16,27 @@ from .report import (Ctx, Finding, RuleResult, split_known, write_evidence, writ
 from . import registry
 
 
-def run_rules(ctx: Ctx, prop: str) -> List[RuleResult]:
+def run_rules(ctx: Ctx, prop: str, refused: Optional[list] = None) -> List[RuleResult]:
+    """Run the rules serving `prop`.  With `refused` given, a rule that refuses to judge (AnalysisError: a construct it cannot
+    find) or crashes is recorded there and the other rules still run: what *they* find is about constructs they recognised and
+    stands on its own -- a refusal never masks a violation.  Whether the run as a whole can pass is the caller's decision."""
     results = []
     for rule_id in registry.PROPERTIES[prop]['rules']:
         fn = registry.rule_fn(rule_id)
-        res = fn(ctx)
-        if not isinstance(res, RuleResult):
-            raise AnalysisError('rule %s returned no result' % rule_id)
+        try:
+            res = fn(ctx)
+            if not isinstance(res, RuleResult):
+                raise AnalysisError('rule %s returned no result' % rule_id)
+        except AnalysisError as e:
+            if refused is None:
+                raise
+            refused.append((rule_id, str(e)))
+            continue
+        except Exception:
+            if refused is None:
+                raise
+            refused.append((rule_id, 'internal error\n' + traceback.format_exc()))
+            continue
         results.append(res)
     return results
 
@@ -51,7 +65,16 @@ def run_property(prop: str, tier: str = 'quick', replay: Optional[str] = None) -
     try:
         repo = Repo()
         ctx = Ctx(repo, tier)
-        results = run_rules(ctx, prop)
+        refused: list = []
+        results = run_rules(ctx, prop, refused)
+        if refused and not split_known(findings_for(results, prop), prop)[1]:
+            # nothing found by the rules that could judge: the run cannot pass, and says why
+            for rid, msg in refused:
+                print('ANALYSIS-ERROR %s: %s' % (prop, msg))
+            return 2
+        for rid, msg in refused:
+            # a violation is reported below by a rule that recognised its construct; the refusal is noted, not decisive
+            print('NOTE %s: rule %s refused to judge this tree (%s)' % (prop, rid, msg.splitlines()[0][:300]))
         # positive controls / variants
         from . import variants
         control_report = variants.run_controls(prop, tier)
